@@ -252,6 +252,23 @@ func runC17(c *ctx) {
 		"compile errors for empty/invalid patterns compared with regexp.Compile; user-defined matcher functions with bad offsets"
 	r := c.rng.fork()
 	n := c.scale(2500, 40000)
+	// 0. the flag letters, behaviourally: every letter (and some pairs) after a literal, applied to a subject on which the
+	// flags i, m and s each change the answer
+	c.rep.Exhaustive = append(c.rep.Exhaustive, "every ASCII letter and digit as a regex flag, flag pairs and triples over i m s")
+	flagSubject := map[string]interface{}{"s": "Ab\nab\nB"}
+	var flagSets []string
+	for cp := '0'; cp <= 'z'; cp++ {
+		if cp >= '0' && cp <= '9' || cp >= 'A' && cp <= 'Z' || cp >= 'a' && cp <= 'z' {
+			flagSets = append(flagSets, string(cp))
+		}
+	}
+	flagSets = append(flagSets, "im", "mi", "is", "si", "ms", "sm", "ims", "smi", "ii", "mm", "imsi", "ix", "xi")
+	for _, fl := range flagSets {
+		for _, re := range []string{"/^a.*$/", "/b.a/", "/B$/", "/a/"} {
+			c.diffEval("$match(s, "+re+fl+").match", flagSubject, "flag-sweep")
+			c.diffEval("$contains(s, "+re+fl+")", flagSubject, "flag-sweep")
+		}
+	}
 	oracle := func(prog string, in interface{}, want interface{}, bucket string) {
 		g := goEval(prog, in)
 		w := "ok " + valueSexp(want)
